@@ -13,6 +13,18 @@ CHECKS["C01"] = dict(engine="explorer", technique="bounded exhaustive enumeratio
 CHECKS["C20"] = dict(engine="explorer", technique="same bounded exhaustive enumeration as C01 with the per-invocation oracle: every ResolveParams/ResolveInfo/ResolveTypeParams field against M-exec's predicted invocation log, resolvers scribbling on their Args, one plan reused across variable assignments",
    text="For every case of the C01 space each resolver invocation is checked: at most once per response path, exactly once unless in a nulled subtree, source identity (list element / root), coerced args, field name, declared return type, runtime parent type, path, FieldASTs covering every included occurrence, operation, fragments, coerced variables, root value, schema, context; type resolvers get the completed value, the field's info and the context. Resolvers overwrite their Args map to expose aliasing of plan-owned maps across executions of the reused plan.",
    ref="5 C20", note="Same trusted base as C01.")
+CHECKS["C07"] = dict(engine="scheduler", technique="stateless exploration of all thread interleavings at synchronisation granularity up to a preemption bound (cooperative scheduler over the instrumented library, happens-before state pruning), race detector active inside every explored schedule",
+   text="10 (quick) / 13 (thorough) scenarios of 2-3 client threads issuing Do / ExecutePlan on a shared plan / PlanCache.Get+ExecutePlan (plain and normalising) / ValidateDocument / Reset against a schema, plan and cache that are cold in every execution; every schedule with <= 2 (quick) / 3 (thorough) preemptions; oracle per schedule: no race report, no panic, no deadlock, every response identical to the same operation run alone.",
+   ref="5 C07", note="Scheduling points only at synchronisation operations (sound for data-race-free executions; the races themselves are reported by Go's race detector, which sees only the library's own synchronisation because the scheduler's hand-off is invisible to it). The -race pass uses one preemption less (two-pass runner).")
+CHECKS["C13"] = dict(engine="explorer", technique="bounded exhaustive enumeration of mutation documents x resolver kinds x ALL iteration orders of the top-level response map (map-iteration seam), oracle on the event log",
+   text="Every generated mutation (<= 4 top-level fields, aliases, duplicates merged by key, fragments, nested selections, lists) within 4 (quick) / 5 (thorough) deviations, resolver kind per invocation among plain / error / thunk / failing thunk at any depth, every permutation (n! for n <= 4) of every walk over the top-level result map and both orders of nested maps, through Do and a reused plan: in the event log (resolver and thunk invocations) all events of top-level field i precede all events of field j > i.",
+   ref="5 C13", note="The instrumenter's map-range seam turns Go's map iteration order into an explorer choice; any key order is a legal Go order.")
+CHECKS["C15"] = dict(engine="scheduler", technique="stateless exploration of all interleavings of producer / consumer / canceller / library forwarder / per-event executor goroutines up to a preemption bound, race detector active in every schedule, deadlock/leak detection at quiescence",
+   text="58+ scenarios (request kind: valid / syntax error / validation error / Subscribe error, nil, plain value; 0-2 (3 thorough) events incl. a failing payload; producer closes or not; consumer reads all / one / none; cancellation or not) x every schedule with <= 2 (quick; 1 for >= 2 events) / 3 preemptions: delivered results are an in-order prefix of the per-event executions, the channel is closed after source close or cancellation, failing requests deliver exactly one error result, and after cancellation no library goroutine is parked.",
+   ref="5 C15", note="Harness context is cancelled through a scheduler-visible close; a result may be the context error once the context is cancelled (C16).")
+CHECKS["C16"] = dict(engine="scheduler", technique="stateless exploration of all interleavings of caller / gate releaser / canceller / library execution goroutine up to a preemption bound, race detector active in every schedule",
+   text="Scenarios: 1-2 (3 thorough) gated resolvers that ignore or observe the context, 0..n gates opened, cancellation (Canceled / DeadlineExceeded) or none, entry Do or PlanQuery+ExecutePlan; every schedule with <= 2 / 3 preemptions: the call returns whenever it was cancelled or all gates opened, and the result is either the context error alone (no data) or a complete well-formed response; never partial data.",
+   ref="5 C16", note="Logical synchronisation only (gates are channels owned by the scheduler); no wall-clock oracle.")
 NOT_YET = {}
 ALL = ["C%02d" % i for i in range(1, 21)]
 
